@@ -88,6 +88,35 @@ def _tx_events(args):
     return ev
 
 
+def _gap_events(args):
+    """introns / span of transcripts whose exons overlap or nest (the other conversions are not claimed there)"""
+    layouts_, seed = args
+    setup_repo_import()
+    ev = []
+    for (blocks, st) in layouts_:
+        try:
+            tx = mk_tx(blocks, st, None, None)
+        except Exception as ex:
+            ev.append(["txgap", [blocks, st], ["x", type(ex).__name__], ["x", type(ex).__name__]])
+            continue
+        ev.append(["txgap", [blocks, st], E.loc_outcome(lambda: tx.chromosome_intron_location),
+                   E.loc_outcome(lambda: tx.chromosome_span)])
+    return ev
+
+
+def overlapping_layouts(G, K):
+    """2..K non-empty blocks over 0..G, sorted by (start, end), at least one pair overlapping or nested"""
+    import itertools
+
+    blocks = [(a, b) for a in range(G + 1) for b in range(a + 1, G + 1)]
+    out = []
+    for k in range(2, K + 1):
+        for combo in itertools.combinations(blocks, k):
+            if any(combo[i][1] > combo[j][0] for i in range(k) for j in range(i + 1, k)):
+                out.append([list(b) for b in combo])
+    return out
+
+
 def _corrupt(ev, rnd):
     """binding control: one observed position answer shifted by one"""
     if ev[0] == "tx":
@@ -126,6 +155,13 @@ def run(chk):
     parts = pmap(_tx_events, [(items[i::nsh], G + 1, chk.seed * 733 + i) for i in range(nsh)])
     evs = [e for p in parts for e in p]
     evs += suite_events(chk, "C06Trace")  # leg S: the repository's own tests, traced passively
+    ol = overlapping_layouts(G, 3)
+    if quick:
+        ol = rnd.sample(ol, min(len(ol), 6000))
+    gitems = [(b, st) for b in ol for st in "+-"]
+    parts = pmap(_gap_events, [(gitems[i::32], i) for i in range(32)])
+    evs += [e for p in parts for e in p]
+    chk.extra["overlapping_exon_layouts"] = len(gitems)
     chk.validate("C06Trace", evs, shard=600, label="tx", corrupt=_corrupt)
     chk.exhaustive = not quick
     chk.nontrivial = len(items)
